@@ -31,7 +31,7 @@ func init() {
 }
 
 var readEvents = map[string]bool{"Reset": true, "Submit": true, "IntroSegment": true, "Return": true,
-	"ReadBegin": true, "ReadEnd": true, "TermRead": true, "ReaderOpenBegin": true, "ReaderObs": true, "ReaderClose": true}
+	"ReadBegin": true, "ReadEnd": true, "ReadError": true, "TermRead": true, "ReaderOpenBegin": true, "ReaderObs": true, "ReaderClose": true}
 
 func records(evs []sx.Event) []any {
 	var out []any
@@ -41,7 +41,7 @@ func records(evs []sx.Event) []any {
 			continue
 		}
 		m := map[string]any{"ev": name}
-		for _, k := range []string{"b", "puts", "dels", "c", "r", "docs", "count", "seq"} {
+		for _, k := range []string{"b", "puts", "dels", "c", "r", "docs", "count", "seq", "err"} {
 			if v, ok := ev[k]; ok {
 				m[k] = v
 			}
@@ -94,8 +94,10 @@ func runScorch(c *core.Ctx, name string, wl sx.Workload, seed int64) (*outcome, 
 				r.Rec.Emit("ReadBegin", map[string]any{"c": cl})
 				docs, err := sx.SearchContent(r.Idx)
 				if err != nil {
-					fail(err)
-					return
+					// the search itself failed (the index is open and healthy): recorded and judged
+					r.Rec.Emit("ReadError", map[string]any{"c": cl, "err": err.Error()})
+					time.Sleep(time.Millisecond)
+					continue
 				}
 				r.Rec.Emit("ReadEnd", map[string]any{"c": cl, "docs": docs})
 				// a query that MATCHES on the version term and returns the STORED version:
@@ -107,8 +109,9 @@ func runScorch(c *core.Ctx, name string, wl sx.Workload, seed int64) (*outcome, 
 					}
 					tdocs, err := sx.SearchVersion(r.Idx, b)
 					if err != nil {
-						fail(err)
-						return
+						r.Rec.Emit("ReadError", map[string]any{"c": cl, "err": err.Error()})
+						time.Sleep(time.Millisecond)
+						continue
 					}
 					r.Rec.Emit("TermRead", map[string]any{"c": cl, "b": b, "docs": tdocs})
 				}
@@ -207,7 +210,7 @@ func runScheduled(c *core.Ctx, name string, sch sx.Schedule) (*outcome, error) {
 		r.Rec.Emit("ReadBegin", map[string]any{"c": 1})
 		docs, err := sx.SearchContent(r.Idx)
 		if err != nil {
-			rerr = err
+			r.Rec.Emit("ReadError", map[string]any{"c": 1, "err": err.Error()})
 			return
 		}
 		r.Rec.Emit("ReadEnd", map[string]any{"c": 1, "docs": docs})
